@@ -46,10 +46,17 @@ def runOps (ops : List WOp) : Bytes :=
 /-- the list of underlying write calls of `ops` followed by the final flush -/
 def writeCalls (ops : List WOp) : List Bytes := (TW.run {} (ops ++ [.flush])).2
 
+/-- `tw.WriteVerbatim(b)` = `tw.trim = false; tw.Write(b); tw.Flush()` in terms of the other methods: an empty
+    `Write` (drops a pending right trim without applying it, flushes what was pending: one call unless nothing was),
+    the `Write` of `b` (flag clear, buffer empty: no call, `b` buffered unchanged), a `Flush` (`b` goes out: one call
+    unless `b` is empty). Same final state, same underlying calls; compared with the real method by the `tw` stream
+    (operation `v<hex>`). -/
+def verbatimOps (b : Bytes) : List WOp := [.write [], .write b, .flush]
+
 def eraseTrims (ops : List WOp) : List WOp :=
   ops.filter fun | .trimLeft | .trimRight => false | _ => true
 
-/-! ## Line protocol: `tw <ops>` where ops = comma-separated `w<hex>` | `L` | `R` | `F` -/
+/-! ## Line protocol: `tw <ops>` where ops = comma-separated `w<hex>` | `L` | `R` | `F` | `v<hex>` -/
 
 def WOp.parse (s : String) : Option WOp :=
   match s.toList with
@@ -58,6 +65,12 @@ def WOp.parse (s : String) : Option WOp :=
   | ['F'] => some .flush
   | 'w' :: h => some (.write (hexDecodeChars h))
   | _ => none
+
+/-- one field of a `tw` case line: `v<hex>` is `WriteVerbatim`, the others are single operations -/
+def WOp.parseOps (s : String) : List WOp :=
+  match s.toList with
+  | 'v' :: h => verbatimOps (hexDecodeChars h)
+  | _ => (WOp.parse s).toList
 
 def showCalls (ws : List Bytes) : String :=
   if ws.isEmpty then "-" else ",".intercalate (ws.map fun w => "w" ++ hexEncode w)
